@@ -163,31 +163,6 @@ package boltz
 //@ spec f2dNull(ft Int, v Str, vnil Bool) Bool
 //@ spec f2dInstant(ft Int, v Str) Int
 
-//@ func FieldToString
-//@   trusted determinism only: the result is a function of (fieldType, value); the decoding itself is specified under C13
-//@   pure
-//@   ensures (result == nil) == f2sNull(fieldType, str(value), value == nil)
-//@   ensures result != nil ==> *result == f2sVal(fieldType, str(value))
-//@ func FieldToInt64
-//@   trusted determinism only: the result is a function of (fieldType, value); the decoding itself is specified under C13
-//@   pure
-//@   ensures (result == nil) == f2iNull(fieldType, str(value), value == nil)
-//@   ensures result != nil ==> *result == f2iVal(fieldType, str(value))
-//@ func FieldToFloat64
-//@   trusted determinism only: the result is a function of (fieldType, value); the decoding itself is specified under C13
-//@   pure
-//@   ensures (result == nil) == f2fNull(fieldType, str(value), value == nil)
-//@   ensures result != nil ==> *result == f2fVal(fieldType, str(value))
-//@ func FieldToBool
-//@   trusted determinism only: the result is a function of (fieldType, value); the decoding itself is specified under C13
-//@   pure
-//@   ensures (result == nil) == f2bNull(fieldType, str(value), value == nil)
-//@   ensures result != nil ==> *result == f2bVal(fieldType, str(value))
-//@ func FieldToDatetime
-//@   trusted determinism only: the result is a function of (fieldType, value); the decoding itself is specified under C13
-//@   pure
-//@   ensures (result == nil) == f2dNull(fieldType, str(value), value == nil)
-//@   ensures result != nil ==> timeInstant(*result) == f2dInstant(fieldType, str(value))
 
 //@ func (*stringSymbolComparator).Compare
 //@   props C02
@@ -254,14 +229,6 @@ package boltz
 //@   trusted reads through a bbolt cursor seek
 //@   pure
 //@   ensures result == bktHas[bucket.Bucket][str(key)]
-//@ func (*TypedBucket).GetInt32
-//@   trusted decoding is specified under C13
-//@   pure
-//@ func (*TypedBucket).SetInt32
-//@   trusted encoding is specified under C13; here only: writes the bucket and its error holder, never clears an error
-//@   modifies bucket.Err, bktHas[bucket.Bucket], bktVal[bucket.Bucket]
-//@   ensures result == bucket
-//@   ensures old(bucket.Err) != nil ==> bucket.Err == old(bucket.Err)
 
 // ---------------------------------------------------------------------------
 // System entities (C16): an operation on an entity whose stored system flag is true is
